@@ -329,27 +329,57 @@ Proof. intros H. unfold gauss_term, gauss_one. cbn [map rsum]. field. exact H. Q
 
 (* ---- cfit ---- *)
 
+(* the code since /repo 9a16823: the stand-alone value IS the value alongside the gradient, for ALL densities
+   (also in the clip region), and both are the documented mixture above the clip threshold *)
+Theorem cfit_call_equals_gradval fb ws e f b v eg g bm :
+  rsum ws <> 0 -> rsum (sqs ws) <> 0 ->
+  cfit_default fb ws e f b v eg g bm = cfit_gradval fb (fcn_weight ws []) e f b (mc_norm v) eg g bm.
+Proof.
+  intros Hs Hq. unfold cfit_default, cfit_nll, cfit_gradval, fcn_weight. rewrite blend_nil.
+  rewrite scale_w_idempotent by assumption. reflexivity.
+Qed.
+
 Theorem cfit_matches_doc fb ws e f b v eg g bm :
   rsum ws <> 0 -> rsum (sqs ws) <> 0 ->
+  Forall (fun x => eps_clip < x) (cfit_probs fb e f b (mc_norm v) eg g bm) ->
   cfit_default fb ws e f b v eg g bm = cfit_doc fb ws e f b v eg g bm /\
-  (Forall (fun x => eps_clip < x) (cfit_probs fb e f b (mc_norm v) eg g bm) ->
-   cfit_gradval fb (fcn_weight ws []) e f b (mc_norm v) eg g bm = cfit_doc fb ws e f b v eg g bm).
+  cfit_gradval fb (fcn_weight ws []) e f b (mc_norm v) eg g bm = cfit_doc fb ws e f b v eg g bm.
 Proof.
-  intros Hs Hq. unfold cfit_default, cfit_call, cfit_gradval, cfit_doc, fcn_weight. rewrite blend_nil. split.
-  - rewrite scale_w_idempotent by assumption. unfold scale_w. rewrite rdot_scale_l. ring.
-  - intros HP. rewrite (rdot_clip_hi _ _ HP). unfold scale_w. rewrite rdot_scale_l. ring.
+  intros Hs Hq HP. rewrite cfit_call_equals_gradval by assumption.
+  assert (G : cfit_gradval fb (fcn_weight ws []) e f b (mc_norm v) eg g bm = cfit_doc fb ws e f b v eg g bm).
+  { unfold cfit_gradval, cfit_doc, fcn_weight. rewrite blend_nil.
+    rewrite (rdot_clip_hi _ _ HP). unfold scale_w. rewrite rdot_scale_l. ring. }
+  split; exact G.
+Qed.
+
+(* OLD code (plain log in Model_cfit.nll): equal to the documented mixture everywhere ... *)
+Theorem cfit_old_matches_doc fb ws e f b v eg g bm :
+  rsum ws <> 0 -> rsum (sqs ws) <> 0 ->
+  cfit_default_old fb ws e f b v eg g bm = cfit_doc fb ws e f b v eg g bm.
+Proof.
+  intros Hs Hq. unfold cfit_default_old, cfit_call, cfit_doc, fcn_weight. rewrite blend_nil.
+  rewrite scale_w_idempotent by assumption. unfold scale_w. rewrite rdot_scale_l. ring.
+Qed.
+
+Theorem cfit_ext_call_equals_gradval fb ws e f b v eg g bm :
+  rsum ws <> 0 -> rsum (sqs ws) <> 0 ->
+  cfit_ext_default fb ws e f b v eg g bm = cfit_ext_gradval fb (fcn_weight ws []) e f b (mc_norm v) eg g bm.
+Proof.
+  intros Hs Hq. unfold cfit_ext_default, cfit_ext_nll, cfit_ext_gradval, fcn_weight. rewrite blend_nil.
+  rewrite scale_w_idempotent by assumption. reflexivity.
 Qed.
 
 Theorem cfit_extended_matches_doc fb ws e f b v eg g bm :
   rsum ws <> 0 -> rsum (sqs ws) <> 0 ->
+  Forall (fun x => eps_clip < x) (cfit_probs fb e f b (mc_norm v) eg g bm) ->
   cfit_ext_default fb ws e f b v eg g bm = cfit_ext_doc fb ws e f b v eg g bm /\
-  (Forall (fun x => eps_clip < x) (cfit_probs fb e f b (mc_norm v) eg g bm) ->
-   cfit_ext_gradval fb (fcn_weight ws []) e f b (mc_norm v) eg g bm = cfit_ext_doc fb ws e f b v eg g bm).
+  cfit_ext_gradval fb (fcn_weight ws []) e f b (mc_norm v) eg g bm = cfit_ext_doc fb ws e f b v eg g bm.
 Proof.
-  intros Hs Hq. unfold cfit_ext_default, cfit_ext_call, cfit_ext_gradval, cfit_ext_doc, fcn_weight. rewrite blend_nil.
-  cbv zeta. split.
-  - rewrite scale_w_idempotent by assumption. rewrite rsum_scale_w. unfold scale_w. rewrite rdot_scale_l. ring.
-  - intros HP. rewrite (rdot_clip_hi _ _ HP). rewrite rsum_scale_w. unfold scale_w. rewrite rdot_scale_l. ring.
+  intros Hs Hq HP. rewrite cfit_ext_call_equals_gradval by assumption.
+  assert (G : cfit_ext_gradval fb (fcn_weight ws []) e f b (mc_norm v) eg g bm = cfit_ext_doc fb ws e f b v eg g bm).
+  { unfold cfit_ext_gradval, cfit_ext_doc, fcn_weight. rewrite blend_nil. cbv zeta.
+    rewrite (rdot_clip_hi _ _ HP). rewrite rsum_scale_w. unfold scale_w. rewrite rdot_scale_l. ring. }
+  split; exact G.
 Qed.
 
 (* lambda = I_sig / (1 - f_bg) with I_sig the efficiency-weighted MC average *)
@@ -567,6 +597,34 @@ Lemma nll_base_one_event c :
 Proof.
   unfold nll_base, alpha, sqs, rscale. cbn [map rsum rdot int_f].
   replace (c * 1) with c by ring. replace ((1 * c + 0) / (1 + 0)) with c by field. field.
+Qed.
+
+(* clip_log is NOT the logarithm below the threshold: at 1e-8 it is larger by ln 100 - 0.99 - 0.49005 > 0 *)
+Lemma clip_log_gt_ln_1e8 : ln (1 / 100000000) < clip_log (1 / 100000000).
+Proof.
+  assert (E : 1 / 100000000 = eps_clip * / 100) by (unfold eps_clip; field).
+  assert (L : ln (1 / 100000000) = ln eps_clip - ln 100).
+  { rewrite E, ln_mult by (unfold eps_clip; lra). rewrite ln_Rinv by lra. lra. }
+  assert (C : clip_log (1 / 100000000) = ln eps_clip + (- (99 / 100)) - (99 / 100) * (99 / 100) / 2).
+  { unfold clip_log. destruct (Rlt_dec eps_clip (1 / 100000000)) as [H|H]; [unfold eps_clip in H; lra|].
+    unfold eps_clip. field. }
+  rewrite C, L. pose proof ln100_gt_2. lra.
+Qed.
+
+(* OLD Model_cfit.nll (plain log) differs from the value returned alongside the gradient in the clip region:
+   one data event with mixture density 1e-8 *)
+Theorem cfit_old_call_not_gradval_refuted :
+  exists fb ws e f b v eg g bm, rsum ws <> 0 /\ rsum (sqs ws) <> 0 /\
+    cfit_default_old fb ws e f b v eg g bm <> cfit_gradval fb (fcn_weight ws []) e f b (mc_norm v) eg g bm.
+Proof.
+  exists 0, [1], [1], [1 / 100000000], [1], [1], [1], [1], [1].
+  unfold sqs. cbn [map rsum]. split; [lra|]. split; [lra|].
+  rewrite cfit_old_matches_doc by (unfold sqs; cbn [map rsum]; lra).
+  unfold cfit_doc, cfit_gradval, fcn_weight, cfit_probs, cfit_prob, sig_of, mc_norm, scale_w, blend, alpha, sqs, rscale.
+  cbn [app map rzip rdot rsum].
+  match goal with |- context [ln ?a] => replace a with (1 / 100000000) by field end.
+  pose proof clip_log_gt_ln_1e8.
+  replace ((1 + 0) / (1 * 1 + 0)) with 1 by field. lra.
 Qed.
 
 Theorem nll_scale_below_clip_refuted :
